@@ -360,7 +360,7 @@ func FaultCheck() {
 	}
 	if !ev.IsWorker() {
 		r.Rule = "for each pipeline shape, every job of the fault-free run is the failure site in turn, with every failure manifestation " +
-			fmt.Sprint(faultKinds) + " at enforcement levels {disable, error}; default schedule, and with the failing job held until quiescence (fast siblings); " +
+			fmt.Sprint(faultKinds) + " at enforcement levels {disable, error}; default schedule, with the failing job held until quiescence (fast siblings), and with each sibling job of the same call held (still queued when the failure is noticed); " +
 			"the oracle requires: state failed (never success, never a hang) where the manifestation is decided to be fatal, reported fqname inside the failing stage, " +
 			"no job of a dependent call (reference dependency closure) started, no error on independent jobs, and after a restart without the fault: completion, " +
 			"outputs equal to the reference, and no re-execution of jobs that had completed. distinct = distinct (shape, job, manifestation, level, schedule); " +
@@ -418,7 +418,22 @@ func FaultCheck() {
 					if exp == "skip" {
 						continue
 					}
-					for _, sc := range []Schedule{{}, {Delay: []string{k}}} {
+					scheds := []Schedule{{}, {Delay: []string{k}}}
+					// a sibling job of the same call (another chunk or fork)
+					// still waiting in the local queue when the failure is
+					// noticed: the restart has to pick it up again
+					if enf == "disable" && (kind == "errors-early" || kind == "vanish" || kind == "assert-early") {
+						kp, _, _ := splitFq(Psid, k[:strings.LastIndex(k, ".")])
+						for _, k2 := range keys {
+							if k2 == k || phaseOf(k2) != phaseOf(k) {
+								continue
+							}
+							if p2, _, _ := splitFq(Psid, k2[:strings.LastIndex(k2, ".")]); p2 == kp {
+								scheds = append(scheds, Schedule{Delay: []string{k2}})
+							}
+						}
+					}
+					for _, sc := range scheds {
 						items = append(items, item{FaultCase{Shape: sh, Fault: Fault{Job: k, Kind: kind}, Enforce: enf, Schedule: sc},
 							p, ref, exp, phaseOf(k)})
 					}
